@@ -533,25 +533,21 @@ func c02R15(c *Ctx, r *Report) {
 	denied := errIsGuard(modPath+"/database", "ErrPermissionDenied")
 	notExist := errIsGuard("io/fs", "ErrNotExist")
 	retryOK := errNilGuard("the retried write succeeded", "database/storage/fstree.writeFile")
-	errSwallowRule(c, r, "C02-R15", 120, func(fn *ssa.Function) bool {
+	errSwallowRule(c, r, "C02-R15", 100, func(fn *ssa.Function) bool {
 		if fn.Pkg == nil {
 			return false
 		}
 		p := short(fn.Pkg.Pkg.Path())
 		return p == "database" || strings.HasPrefix(p, "database/storage") || p == "database/iterator"
 	}, nil, map[string]swallowSpec{
-		"database.(*Interface).Exists / error call:database.Interface.Get#1":        {Guards: []Guard{notFound, denied}, Reason: "Exists answers false for ErrNotFound and true for ErrPermissionDenied (a non-privileged interface may learn that the key exists)"},
-		"database.(*Interface).Put / error call:database.Interface.getMeta#2":       {Guards: []Guard{notFound}, Reason: "writing a record that does not exist yet"},
-		"database.(*Interface).PutNew / error call:database.Interface.getMeta#2":    {Guards: []Guard{notFound}, Reason: "writing a record that does not exist yet"},
-		"database.loadRegistry / error call:os.ReadFile#1":                          {Guards: []Guard{notExist}, Reason: "no registry file yet"},
-		"database/storage/badger.(*Badger).Delete$1 / error call:github.com/dgraph-io/badger.Txn.Delete#0": {Guards: []Guard{errIsGuard("github.com/dgraph-io/badger", "ErrKeyNotFound")}, Reason: "deleting an absent key is not an error (sibling agreement, C02-R7)"},
+		"error call:database.Interface.Get#1": {Guards: []Guard{notFound, denied}, Reason: "Exists answers false for ErrNotFound and true for ErrPermissionDenied (a non-privileged interface may learn that the key exists)"},
+		"error call:database.Interface.getMeta#2": {Guards: []Guard{notFound}, Reason: "writing a record that does not exist yet (Put, PutNew)"},
+		"error call:os.ReadFile#1": {Guards: []Guard{notExist}, Reason: "no registry file yet / a file deleted between the directory walk and the read is skipped"},
+		"error call:github.com/dgraph-io/badger.Txn.Delete#0": {Guards: []Guard{errIsGuard("github.com/dgraph-io/badger", "ErrKeyNotFound")}, Reason: "deleting an absent key is not an error (sibling agreement, C02-R7)"},
 		"database/storage/badger.(*Badger).MaintainThorough / error var err":        {Reason: "the value-log GC is repeated until it reports that nothing is left to rewrite (an error value by design of the badger API)"},
-		"database/storage/fstree.(*FSTree).Delete / error call:os.Remove#0":         {Guards: []Guard{notExist}, Reason: "deleting an absent key is not an error (sibling agreement, C02-R7)"},
+		"error call:os.Remove#0": {Guards: []Guard{notExist}, Reason: "deleting an absent key is not an error (sibling agreement, C02-R7)"},
 		"database/storage/fstree.(*FSTree).Put / error call:database/storage/fstree.writeFile#0": {Guards: []Guard{retryOK}, Reason: "a first failure is retried after creating the directory; success only if the retry succeeded"},
-		"database/storage/fstree.(*FSTree).Query / error call:os.Stat#1":            {Guards: []Guard{notExist}, Reason: "a prefix that names no file: the walk starts at its parent"},
-		"database/storage/fstree.(*FSTree).Query / error call:os.Stat#1 #2":         {Guards: []Guard{notExist}, Reason: "a prefix that names no file: the walk starts at its parent"},
-		"database/storage/fstree.(*FSTree).queryExecutor$1 / error call:os.ReadFile#1": {Guards: []Guard{notExist}, Reason: "a file deleted between the directory walk and the read is skipped"},
-		"database/storage/fstree.NewFSTree / error call:os.Stat#1":                  {Guards: []Guard{notExist}, Reason: "the database directory is created when missing"},
+		"error call:os.Stat#1": {Guards: []Guard{notExist}, Reason: "a path that names no file: the walk starts at its parent / the database directory is created when missing"},
 	})
 }
 
